@@ -248,6 +248,7 @@ class NxMixedGraph:
         """
         self.raise_on_counterfactual()
         return _latent_dag(
+            nodes=self.nodes(),
             di_edges=self.directed.edges(),
             bi_edges=self.undirected.edges(),
             prefix=prefix,
@@ -269,6 +270,7 @@ class NxMixedGraph:
                 for a, b in itt.combinations(graph.successors(node), 2):
                     rv.add_undirected_edge(a, b)
             else:
+                rv.add_node(node)
                 for child in graph.successors(node):
                     rv.add_directed_edge(node, child)
         return rv
@@ -745,6 +747,7 @@ def _latent_dag(
     di_edges: Iterable[tuple[Variable, Variable]],
     bi_edges: Iterable[tuple[Variable, Variable]],
     *,
+    nodes: Iterable[Variable] | None = None,
     prefix: str | None = None,
     start: int = 0,
     tag: str | None = None,
@@ -767,6 +770,7 @@ def _latent_dag(
     bi_edges_list = list(bi_edges)
 
     rv = nx.DiGraph()
+    rv.add_nodes_from(nodes or [])
     rv.add_nodes_from(itt.chain.from_iterable(bi_edges_list))
     rv.add_edges_from(di_edges)
     nx.set_node_attributes(rv, False, tag)
